@@ -13,8 +13,10 @@ fix_map = json.load(open(os.path.join(ROOT, 'tools', 'fix_map.json')))
 log = subprocess.run(['git', '-C', '/repo', 'log', '--format=%h\t%s'], capture_output=True, text=True).stdout
 hash_by_subject = {l.split('\t', 1)[1]: l.split('\t', 1)[0] for l in log.splitlines() if '\t' in l}
 
-def commit_for(pid, bucket):
+def commit_for(pid, bucket, fname=''):
     for m in fix_map:
+        if m.get('replay_contains') and m['replay_contains'] not in fname:
+            continue
         if m['property'] == pid and re.search(m['pattern'], bucket):
             return hash_by_subject.get(m['subject'], '???????'), m['subject']
     return None, None
@@ -39,12 +41,18 @@ for pid in pids:
             print(('reproduces ' if hit else 'STALE      ') + base)
             continue
         new = os.path.join(os.path.dirname(f), ('open_' if hit else 'fixed_') + slug + '.json')
+        if base.startswith('fixed_') and not hit:
+            new = f  # an already filed replay keeps its name (several replays may share one bucket)
+        k_ = 2
+        while new != f and os.path.exists(new):
+            new = os.path.join(os.path.dirname(f), ('open_' if hit else 'fixed_') + slug + f'_{k_}.json')
+            k_ += 1
         if new != f:
             os.rename(f, new)
         if hit:
             print('OPEN       ' + rec['bucket'] + '  -> needs a fix or a known entry')
             continue
-        h, subj = commit_for(pid, rec['bucket'])
+        h, subj = commit_for(pid, rec['bucket'], os.path.basename(new))
         if h is None:
             print('UNMAPPED   ' + rec['bucket'])
             continue
